@@ -260,4 +260,43 @@ theorem padBurstPads_ok (burstLen toPadTo : Nat)
       simp at hp; omega
     · rw [if_neg h2] at hp; simp at hp
 
+
+theorem allSome_append (a b : List (Option Bytes)) (pa pb : List Bytes)
+    (ha : allSome a = some pa) (hb : allSome b = some pb) : allSome (a ++ b) = some (pa ++ pb) := by
+  induction a generalizing pa with
+  | nil => simp [allSome] at ha; subst ha; simpa using hb
+  | cons x xs ih =>
+    cases x with
+    | none => simp [allSome] at ha
+    | some p =>
+      simp only [allSome, Option.map_eq_some_iff] at ha
+      obtain ⟨q, hq, rfl⟩ := ha
+      simp [allSome, ih q hq]
+
+/-- a whole sequence of `Write`s: the packets are well formed, carry exactly the concatenation
+    of the written data, fit their frames and pass the receiver's packet checks -/
+theorem txAll_payload (srv : Bool) (ws : List (Bytes × List Nat))
+    (hp : ∀ w ∈ ws, ∀ p ∈ w.2, p ≤ maxPacketPaddingLength) :
+    ∃ pkts, allSome (txAll ws) = some pkts ∧
+      pkts.flatMap (payloadOf srv) = (ws.map (·.1)).flatten ∧
+      (∀ p ∈ pkts, p.length ≤ Consts.Framing.maximumFramePayloadLength) ∧
+      (∀ p ∈ pkts, ∀ e, parsePacket srv p ≠ .bad e) := by
+  induction ws with
+  | nil => exact ⟨[], rfl, rfl, by simp, by simp⟩
+  | cons w ws ih =>
+    obtain ⟨p1, h1, h2, h3, h4⟩ := tx_payload srv w.1 w.2 (hp w (by simp))
+    obtain ⟨p2, g1, g2, g3, g4⟩ := ih (fun w' hw' => hp w' (by simp [hw']))
+    refine ⟨p1 ++ p2, ?_, ?_, ?_, ?_⟩
+    · simp only [txAll, List.flatMap_cons]
+      exact allSome_append _ _ _ _ h1 g1
+    · simp [List.flatMap_append, h2, g2]
+    · intro p hpm
+      rcases List.mem_append.mp hpm with h | h
+      · exact h3 p h
+      · exact g3 p h
+    · intro p hpm
+      rcases List.mem_append.mp hpm with h | h
+      · exact h4 p h
+      · exact g4 p h
+
 end O4.Obfs4
